@@ -12,6 +12,7 @@ from linear_operator.operators._linear_operator import IndexType, LinearOperator
 from linear_operator.operators.diag_linear_operator import ConstantDiagLinearOperator
 from linear_operator.operators.zero_linear_operator import ZeroLinearOperator
 
+from linear_operator.utils.broadcasting import _matmul_broadcast_shape
 from linear_operator.utils.generic import _to_helper
 from linear_operator.utils.getitem import _compute_getitem_size, _is_noop_index
 from linear_operator.utils.memoize import cached
@@ -193,6 +194,12 @@ class IdentityLinearOperator(ConstantDiagLinearOperator):
             inv_quad_term = torch.empty(0, dtype=self.dtype, device=self.device)
         else:
             rhs_batch_shape = inv_quad_rhs.shape[1 + self.batch_dim :]
+            if inv_quad_rhs.shape[self.batch_dim] != self.shape[-1]:
+                raise RuntimeError(
+                    "LinearOperator (size={}) cannot be multiplied with right-hand-side Tensor (size={}).".format(
+                        self.shape, inv_quad_rhs.shape
+                    )
+                )
             inv_quad_term = inv_quad_rhs.mul(inv_quad_rhs).sum(-(1 + len(rhs_batch_shape)))
             if reduce_inv_quad:
                 inv_quad_term = inv_quad_term.sum(-1)
@@ -213,6 +220,7 @@ class IdentityLinearOperator(ConstantDiagLinearOperator):
         self: Float[LinearOperator, "*batch M N"],
         other: Union[Float[Tensor, "*batch2 N P"], Float[Tensor, "*batch2 N"], Float[LinearOperator, "*batch2 N P"]],
     ) -> Union[Float[Tensor, "... M P"], Float[Tensor, "... M"], Float[LinearOperator, "... M P"]]:
+        _matmul_broadcast_shape(self.shape, other.shape)
         is_vec = False
         if other.dim() == 1:
             is_vec = True
@@ -227,6 +235,7 @@ class IdentityLinearOperator(ConstantDiagLinearOperator):
         right_tensor: Union[Float[Tensor, "... N P"], Float[Tensor, " N"]],
         left_tensor: Optional[Float[Tensor, "... O N"]] = None,
     ) -> Union[Float[Tensor, "... N P"], Float[Tensor, "... N"], Float[Tensor, "... O P"], Float[Tensor, "... O"]]:
+        _matmul_broadcast_shape(self.shape, right_tensor.shape)
         res = self._maybe_reshape_rhs(right_tensor)
         if left_tensor is not None:
             res = left_tensor @ res
@@ -240,9 +249,11 @@ class IdentityLinearOperator(ConstantDiagLinearOperator):
         rhs: Float[Tensor, "*batch N P"],
         lhs: Optional[Float[Tensor, "*batch O N"]] = None,
     ) -> Union[Float[Tensor, "*batch N P"], Tuple[Float[Tensor, "*batch O P"], Float[Tensor, "*batch O"]]]:
+        _matmul_broadcast_shape(self.shape, rhs.shape)
         if lhs is None:
             return self._maybe_reshape_rhs(rhs)
         else:
+            _matmul_broadcast_shape(lhs.shape, self.shape)
             sqrt_inv_matmul = lhs @ rhs
             inv_quad = lhs.pow(2).sum(dim=-1)
             return sqrt_inv_matmul, inv_quad
